@@ -30,6 +30,7 @@ func vpAPIBase() map[string]intrinsicFn {
 		"vpBool":         vpBool,
 		"vpInt":          vpInt,
 		"vpIntC":         vpIntC,
+		"vpGo":           vpGo,
 		"vpBytes":        vpBytes,
 		"vpBytesCap":     vpBytesCap,
 		"vpBytesCapN":    vpBytesCapN,
@@ -417,6 +418,29 @@ func vpIntC(e *Engine, st *State, fn *ssa.Function, a []Value, s ssa.Instruction
 			s2.splits++
 		}
 		outs = append(outs, Outcome{st: s2, ret: c})
+	}
+	return outs
+}
+
+// vpGo(f): natively `go f()`.  In the engine f runs right here to completion; a select or
+// receive that would block forever ends f (the goroutine simply stays parked) instead of ending
+// the path, so a server loop can be driven for the events the harness has queued.
+func vpGo(e *Engine, st *State, fn *ssa.Function, a []Value, s ssa.Instruction) []Outcome {
+	f := a[0].(*FuncV)
+	if f.fn == nil {
+		return one(st, nil)
+	}
+	prev := st.ghost["vp.parkreturns"]
+	st.ghost["vp.parkreturns"] = e.tm.True
+	outs := e.callFn(st, f.fn, nil, f.bind, s)
+	for i := range outs {
+		outs[i].ret = nil
+		delete(outs[i].st.ghost, "vp.parked")
+		if prev == nil {
+			delete(outs[i].st.ghost, "vp.parkreturns")
+		} else {
+			outs[i].st.ghost["vp.parkreturns"] = prev
+		}
 	}
 	return outs
 }
